@@ -19,7 +19,9 @@ Record pcase := PC {
   g_part_s : bool;            (* isValidPart(s) *)
   g_path_p : bool;            (* isValidPath(p) *)
   g_id_back : option bytes;   (* IDTransformer: RIDToID(IDToRID(val)) through Values; None = no match/absent *)
-  g_cover_cex : bool          (* harness found a short name n with s.Matches(n) && !p.Matches(n) *)
+  g_cover_cex : bool;         (* harness found a short name n with s.Matches(n) && !p.Matches(n) *)
+  g_valid_s : bool;           (* Pattern(s).IsValid() *)
+  g_path_s : bool             (* isValidPath(s) *)
 }.
 
 Definition oamap_eq (a b : option amap) : bool :=
@@ -34,7 +36,7 @@ Definition on_eq (a b : option N) : bool :=
 Definition vals_or_empty (o : option amap) : amap := match o with Some m => m | None => [] end.
 
 (* field codes: 1 valid 2 matches 3 values 4 replace_tags 5 repl_matches 6 replace_tag
-   7 index_wildcard 8 rid 9 part 10 path 11 id round trip *)
+   7 index_wildcard 8 rid 9 part 10 path 11 id round trip 12 IsValid of the name 13 isValidPath of the name *)
 Definition check_case (c : pcase) : list N :=
   let mv := values (cp c) (cs c) in
   let rp := replace_tags (vals_or_empty mv) (cp c) in
@@ -48,7 +50,9 @@ Definition check_case (c : pcase) : list N :=
   (if Bool.eqb (is_valid_rid (cs c)) (g_rid_s c) then [] else [8]) ++
   (if Bool.eqb (is_valid_part (cs c)) (g_part_s c) then [] else [9]) ++
   (if Bool.eqb (is_valid_path (cp c)) (g_path_p c) then [] else [10]) ++
-  (if obeq (rid_to_id (ctag c) (cp c) (id_to_rid (ctag c) (cp c) (cval c))) (g_id_back c) then [] else [11]).
+  (if obeq (rid_to_id (ctag c) (cp c) (id_to_rid (ctag c) (cp c) (cval c))) (g_id_back c) then [] else [11]) ++
+  (if Bool.eqb (is_valid (cs c)) (g_valid_s c) then [] else [12]) ++
+  (if Bool.eqb (is_valid_path (cs c)) (g_path_s c) then [] else [13]).
 
 (* property C17 evaluated on the implementation's outputs only.
    codes: 1 matches<>values  2 substituted-back pattern does not match
@@ -56,7 +60,10 @@ Definition check_case (c : pcase) : list N :=
           4 Matches(p,q) true but some name of q does not match p
           5 id -> rid -> id is not the identity
           6 a string accepted as a name part is rejected as a resource id (validators disagree; theorem
-            valid_part_is_valid_rid) *)
+            valid_part_is_valid_rid)
+          7 a string without query part and without $-tokens accepted as a resource id is rejected as a pattern
+            or as a path, so it could never be registered or routed (theorem valid_rid_is_valid_pattern) *)
+
 Definition viol_case (c : pcase) : list N :=
   let okp := g_valid_p c in
   let oks := no_gt_start (cs c) in
@@ -67,7 +74,8 @@ Definition viol_case (c : pcase) : list N :=
   (if okp && g_matches c && g_cover_cex c then [4] else []) ++
   (if okp && is_valid_part (cval c) && existsb (beq (ctag c)) (tag_names (cp c))
       && nodupb (tag_names (cp c)) && negb (obeq (g_id_back c) (Some (cval c))) then [5] else []) ++
-  (if g_part_s c && negb (g_rid_s c) then [6] else []).
+  (if g_part_s c && negb (g_rid_s c) then [6] else []) ++
+  (if g_rid_s c && no_qmark (cs c) && no_dollar_tokens (cs c) && negb (g_valid_s c && g_path_s c) then [7] else []).
 
 Fixpoint run_idx {A} (f : A -> list N) (i : N) (cs : list A) : list (N * N) :=
   match cs with
